@@ -311,6 +311,7 @@ def shards(tier, seed):
         for how in ('set', 'raise', 'return'):
             for start in (0, 1):
                 out.insert(0, ('threads', st, how, start, 1 if tier == 'quick' else 2))
+    out.append(('blacklist', None, None, None, 'base'))
     # seed extension: one more character joins the alphabet (all strings <= 2 containing it, all dict ops)
     out.append(('extra', ['\x0b', '\x0c', '\x85', ' ', '\x7f', '\x1b', '\xff'][seed % 7], None, 2, 'base'))
     return out
@@ -355,13 +356,15 @@ def work(spec):
     om = sut.load()
     c = res['counters']
 
-    def run(prog, status):
+    def run(prog, status, fresh=False):
         res['states'] += 1
         res['transitions'] += len(prog)
         case = {'prog': [[op, name, v if isinstance(v, (str, int, float, bool, type(None))) else NONSTR.index(v) + 1000]
                          for op, name, v in prog], 'status': status, 'via': via}
+        if fresh:
+            case['fresh'] = True       # the program starts from a freshly imported framework (nothing remembered from earlier programs)
         core.track(res, case)
-        v = judge(om, prog, status, via)
+        v = judge(sut.load(fresh=True) if fresh else om, prog, status, via)
         ok = all(acceptable(x[2]) or (x[0] == 'setdefault' and isinstance(x[2], list) and x[2] and all(acceptable(e) for e in x[2])) for x in prog)
         c['accepted' if ok else 'rejected'] += 1
         if via == 'wsgi':
@@ -387,15 +390,29 @@ def work(spec):
                 run([(a, b, v)], st)
         core.add_sample(res, {'entry_point': a, 'name': b, 'via': via, 'values': len(vals), 'example': [a, b, 'a\r\nü']})
     elif kind == 'pair':
-        vals = list(strings(1)) + NONSTR[:7] + NONSTR[9:11]
+        # ... and values that compare equal although they are written differently (True / 1 / 1.0, False / 0 / 0.0, 5 / 5.0)
+        vals = list(strings(1)) + NONSTR[:7] + NONSTR[9:11] + [1, 1.0, False, 0, 0.0, 5.0]
         names2 = [('X-A', 'X-A'), ('Content-Type', 'content-type'), ('Allow', 'X-A')]
         sts = [200, 304] if via == 'base' else [200]
         for n1, n2 in names2:
             for v1 in vals:
                 for v2 in vals:
                     for st in sts:
-                        run([(a, n1, v1), (b, n2, v2)], st)
+                        # values that are equal but written differently: on a fresh import, so that whatever is remembered
+                        # between the two operations is the program's own doing
+                        eqfam = (n1, st) == ('X-A', 200) and all(isinstance(x, (int, float)) for x in (v1, v2))
+                        run([(a, n1, v1), (b, n2, v2)], st, fresh=eqfam)
         core.add_sample(res, {'sequence': [a, b], 'via': via, 'values_each': len(vals)})
+    elif kind == 'blacklist':
+        # every spelling of every entity header that 204 / 304 must withhold, through every dictionary setter
+        for st in (200, 204, 304):
+            for canon_name in sorted(BLACKLIST[304]):
+                title = '-'.join(w.capitalize() for w in canon_name.split('-'))
+                for name in sorted({canon_name, canon_name.upper(), title, title.replace('Md5', 'MD5')}):
+                    for op in DICT_OPS:
+                        run([(op, name, 'v')], st)
+                        run([(op, name, 'v'), ('append', name, 'w')], st)
+        core.add_sample(res, {'blacklisted_names': sorted(BLACKLIST[304])})
     else:
         extra = a
         for s in strings(2):
@@ -410,7 +427,7 @@ def work(spec):
 
 
 def replay(case):
-    om = sut.load()
+    om = sut.load(fresh=bool(case.get('fresh')))
     if case.get('kind') == 'threads':
         x = run_threads(om, case['status'], case['how'], tuple(case['choices']))
         v = judge_threads(case['status'], x)
